@@ -36,6 +36,17 @@
 //! exactly one well-formed Error Report (code, version, encapsulated PDU) -
 //! never a data response - for everything else; then the schedule oracles (2)
 //! at deviation <= 1 around the subject header.
+//!
+//! Round 11: (a) `malformed.headers` no longer leaves the non-zero reserved
+//! field of a Reset Query open (RFC 8210 section 5: unspecified fields MUST be
+//! ignored on receipt - the query is well-formed and must get its response);
+//! (b) `data.sizes` has single router key PDUs of k-1, k, k+1 octets around
+//! every power of two from 2^13 to 2^17 and responses whose size reaches k
+//! with / after the large PDU, at every position of the response;
+//! (c) space `participants.reports`: everything else the source reports
+//! (timing values, readiness, session; one or two moves) changes at every
+//! point of the schedule of ONE connection that answers up to three queries,
+//! and the Serial Notify PDUs are compared with the source's state as well.
 
 use std::cell::RefCell;
 use std::collections::{BTreeMap, HashSet};
@@ -179,14 +190,26 @@ struct SrcData {
     state: State,
     full: Vec<Payload>,
     diffs: Vec<(u32, Vec<(Payload, Action)>)>,
+    timing: Timing,
+    ready: bool,
 }
 
-struct SrcShared { ready: bool, timing: Timing, states: Vec<SrcData>, cur: std::sync::atomic::AtomicUsize }
+struct SrcShared { states: Vec<SrcData>, cur: std::sync::atomic::AtomicUsize }
 
-/// The harness' payload source: a sequence of states (session SESSION, one
-/// serial each, a full set and the diffs retained in that state) and the
-/// index of the current one. `advance` is the source's own event. Iterators
-/// are snapshots of the state they were created in.
+/// Everything a source reports in one of its states: the data (serial, full
+/// set, retained diffs), the session, the timing values and whether it is
+/// ready.
+#[derive(Clone)]
+struct Report { name: &'static str, data: Data, session: u16, timing: [u32; 3], ready: bool }
+
+impl Report {
+    fn base() -> Report { Report { name: "base", data: Data::base(), session: SESSION, timing: [REFRESH, RETRY, EXPIRE], ready: true } }
+}
+
+/// The harness' payload source: a sequence of states (a session, one serial,
+/// a full set, the diffs retained in that state, timing values, readiness)
+/// and the index of the current one. `advance` is the source's own event.
+/// Iterators are snapshots of the state they were created in.
 #[derive(Clone)]
 struct Src(Arc<SrcShared>);
 
@@ -194,20 +217,28 @@ impl Src {
     fn new(data: &Data) -> Src { Src::with_states(std::slice::from_ref(data)) }
 
     fn with_states(states: &[Data]) -> Src {
+        let reports: Vec<Report> = states.iter().map(|d| Report { data: d.clone(), ..Report::base() }).collect();
+        Src::with_reports(&reports)
+    }
+
+    fn with_reports(reports: &[Report]) -> Src {
         let act = |a: bool| if a { Action::Announce } else { Action::Withdraw };
         Src(Arc::new(SrcShared {
-            ready: true,
-            timing: Timing { refresh: REFRESH, retry: RETRY, expire: EXPIRE },
-            states: states.iter().map(|d| SrcData {
-                state: State::from_parts(SESSION, Serial(d.serial)),
-                full: d.full.iter().map(|i| i.to_lib()).collect(),
-                diffs: d.diffs.iter().map(|(f, ch)| (*f, ch.iter().map(|(i, a)| (i.to_lib(), act(*a))).collect())).collect(),
+            states: reports.iter().map(|r| SrcData {
+                state: State::from_parts(r.session, Serial(r.data.serial)),
+                full: r.data.full.iter().map(|i| i.to_lib()).collect(),
+                diffs: r.data.diffs.iter().map(|(f, ch)| (*f, ch.iter().map(|(i, a)| (i.to_lib(), act(*a))).collect())).collect(),
+                timing: Timing { refresh: r.timing[0], retry: r.timing[1], expire: r.timing[2] },
+                ready: r.ready,
             }).collect(),
             cur: std::sync::atomic::AtomicUsize::new(0),
         }))
     }
 
     fn cur(&self) -> usize { self.0.cur.load(Ordering::SeqCst) }
+
+    /// Back to the first state (between runs).
+    fn rewind(&self) { self.0.cur.store(0, Ordering::SeqCst) }
 
     /// The source moves on to its next state (if it has one).
     fn advance(&self) { if self.cur() + 1 < self.0.states.len() { self.0.cur.fetch_add(1, Ordering::SeqCst); } }
@@ -234,18 +265,18 @@ impl PayloadDiff for DiffIter {
 impl PayloadSource for Src {
     type Set = SetIter;
     type Diff = DiffIter;
-    fn ready(&self) -> bool { self.0.ready }
+    fn ready(&self) -> bool { self.0.states[self.cur()].ready }
     fn notify(&self) -> State { self.0.states[self.cur()].state }
     fn full(&self) -> (State, SetIter) { let c = self.cur(); (self.0.states[c].state, SetIter { data: self.0.clone(), state: c, pos: 0 }) }
     fn diff(&self, state: State) -> Option<(State, DiffIter)> {
-        if state.session() != SESSION { return None }
         let c = self.cur();
         let st = &self.0.states[c];
+        if state.session() != st.state.session() { return None }
         if state.serial().0 == st.state.serial().0 { return Some((st.state, DiffIter { data: self.0.clone(), state: c, diff: None, pos: 0 })) }
         let d = st.diffs.iter().position(|(f, _)| *f == state.serial().0)?;
         Some((st.state, DiffIter { data: self.0.clone(), state: c, diff: Some(d), pos: 0 }))
     }
-    fn timing(&self) -> Timing { self.0.timing }
+    fn timing(&self) -> Timing { self.0.states[self.cur()].timing }
 }
 
 
@@ -443,13 +474,15 @@ fn model(seq: &[Q], lens: &[usize], data: &Data) -> (Vec<Expect>, Vec<usize>, bo
 //   takes in the whole PDU before judging it);
 // * a PDU that carries a supported version but is rejected for another
 //   reason may or may not count as the version negotiation;
-// * a Reset Query whose reserved field is not zero may be answered (RFC 8210
-//   5.1: ignored on receipt) or rejected;
 // * a client Error Report ends all prediction (RFC 8210 5.11: never answered
 //   with an Error Report; the property says nothing).
 //
 // What is never open: a complete well-formed query of an acceptable version
-// gets exactly its data response; every other complete header gets exactly
+// gets exactly its data response - a Reset Query is well-formed whatever its
+// reserved 16-bit field holds (RFC 8210 section 5: "Fields with unspecified
+// content MUST be zero on transmission and MUST be ignored on receipt"; round
+// 11: this reading used to be left open, which hid a server that compares the
+// received header with the one its own constructor builds); every other complete header gets exactly
 // one Error Report PDU that is well formed (length fields add up, UTF-8 text),
 // carries one of the defined codes 0..=8 (which one is not judged: the
 // property says "an Error PDU"), a supported version (the
@@ -481,6 +514,26 @@ fn data_unit(v: u8, q: Option<(u16, u32)>, data: &Data) -> Vec<u8> {
             None => unit.extend(hdr(v, 8, 0, 8)),
         },
     }
+    unit
+}
+
+/// The response the model determines for a well-formed query (`None`: Reset
+/// Query, `Some((session, serial))`: Serial Query) of version `v` when the
+/// source reports the session, serial and data of `r` and the timing values
+/// `timing`. Written from RFC 8210 sections 5.2 - 5.10, without the library.
+fn report_unit(v: u8, q: Option<(u16, u32)>, r: &Report, timing: [u32; 3]) -> Vec<u8> {
+    let changes: Option<Vec<(&Item, bool)>> = match q {
+        None => Some(r.data.full.iter().map(|i| (i, true)).collect()),
+        // another session, or a serial the source keeps no diff for: Cache Reset
+        Some((session, _)) if session != r.session => None,
+        Some((_, from)) if from == r.data.serial => Some(vec![]),
+        Some((_, from)) => r.data.diff_from(from).map(|d| d.iter().map(|(i, a)| (i, *a)).collect()),
+    };
+    let Some(changes) = changes else { return hdr(v, 8, 0, 8) };
+    let mut unit = hdr(v, 3, r.session, 8);
+    for (i, a) in changes { if i.min_version() <= v { unit.extend(i.wire(v, a)) } }
+    if v == 0 { unit.extend(hdr(0, 7, r.session, 12)); unit.extend(r.data.serial.to_be_bytes()) }
+    else { unit.extend(hdr(v, 7, r.session, 24)); for x in [r.data.serial, timing[0], timing[1], timing[2]] { unit.extend(x.to_be_bytes()) } }
     unit
 }
 
@@ -582,10 +635,9 @@ impl<'a> ByteModel<'a> {
             let version = match neg { Neg::Yes(n) => Some(n), Neg::No => None };
             let rejected: Vec<Neg> = if neg == Neg::No { vec![Neg::Yes(v), Neg::No] } else { vec![neg] };
             match (t, l) {
-                (2, 8) => {
-                    alts.push((Want::Data(data_unit(v, None, data)), vec![Some((pos + 8, Neg::Yes(v)))]));
-                    if s != 0 { alts.push((Want::Error { codes: &[0, 3], version, at: pos }, after_error(&rejected))) }
-                }
+                // whatever the reserved field holds: RFC 8210 section 5, "Fields with unspecified content MUST be
+                // zero on transmission and MUST be ignored on receipt" - the query is well-formed for the receiver
+                (2, 8) => alts.push((Want::Data(data_unit(v, None, data)), vec![Some((pos + 8, Neg::Yes(v)))])),
                 (1, 12) => {
                     if rest.len() < 12 { return self.ends(ui, "the last serial query of the client is incomplete") }
                     let serial = u32::from_be_bytes([rest[8], rest[9], rest[10], rest[11]]);
@@ -968,7 +1020,7 @@ fn main() {
     ctx.assume("the harness' PayloadSource (fixed data set, session 0x1234, serial 7, one retained diff) is the data the responses must carry");
     ctx.assume("writes are accepted at once, except for the 1-octet-write and held-back-response variants at deviation <= 1; notifications fired before the connection has subscribed are out of scope");
 
-    ctx.assume("malformed.headers: where RFC 8210 and the property text leave the reaction to a malformed PDU open (going on after the header / skipping the announced length / closing after the Error Report / waiting for announced octets that never come; whether a rejected PDU with a supported version settles the version; a non-zero reserved field in a Reset Query) every reading is accepted; a client Error Report ends all prediction");
+    ctx.assume("malformed.headers: where RFC 8210 and the property text leave the reaction to a malformed PDU open (going on after the header / skipping the announced length / closing after the Error Report / waiting for announced octets that never come; whether a rejected PDU with a supported version settles the version) every reading is accepted; a client Error Report ends all prediction; a Reset Query with a non-zero reserved field is well-formed (RFC 8210 section 5: unspecified fields MUST be ignored on receipt) and must get its data response");
 
     let base = Data::base();
     let src = match guard(|| Src::new(&base)) {
@@ -1013,7 +1065,7 @@ fn main() {
     // (a witness of the data.sizes space names its own data set and stream; the other spaces then run on one stream only)
     let data_replay = ctx.replay.as_ref().map(|(_, w)| w.starts_with("data=")).unwrap_or(false);
     // witnesses of the participant and history spaces: those (small) spaces are run as a whole
-    let space_replay = ctx.replay.as_ref().map(|(_, w)| w.starts_with("party=") || w.starts_with("source=") || w.starts_with("after ")).unwrap_or(false);
+    let space_replay = ctx.replay.as_ref().map(|(_, w)| w.starts_with("party=") || w.starts_with("source=") || w.starts_with("reports=") || w.starts_with("after ")).unwrap_or(false);
     // witnesses of the malformed.headers space carry their own octets and schedule
     let mal_replay = ctx.replay.as_ref().map(|(_, w)| w.starts_with("route=")).unwrap_or(false);
     if data_replay || mal_replay { streams.truncate(1) }
@@ -1073,7 +1125,7 @@ fn main() {
 
     //--- (1b) sizes and counts of the served data --------------------------------
     let sp = ctx.space("data.sizes",
-        "payload sources with (i) one large item (ASPA with 1021/1022/1023/2044/16380 providers, router key with 4063/4064/4065 octets of key info; thorough: also 4095..4097 providers and 65535..65537 octets) before / between / after the four small items, (ii) n IPv4 origins for every n in 0..=40 and around 128, 204 (4096/20), 256 (thorough: 512, 1024, 4096), n IPv6 origins around 128 (4096/32), (iii) n origins followed by a 1022-provider ASPA and one more origin; each queried with reset v0/v1/v2, serial v1/v2 (retained diff) and reset+serial on one connection, delivered in one piece / with a 1-octet first write / 7-octet writes / the response held back after 4096 octets; response PDU order and octets compared with the model; non-trivial = responses longer than 4096 octets (measured)");
+        "payload sources with (i) one large item (ASPA with 1021/1022/1023/2044/16380 providers, router key with 4063/4064/4065 octets of key info; thorough: also 4095..4097 providers and 65535..65537 octets; a router key PDU of k-1, k, k+1 octets for k = 2^13 .. 2^17 (thorough: 2^18, 2^20); a router key PDU with whose end the response reaches k-1, k, k+1 octets, and one that makes the whole response k-1, k, k+1 octets, for k = 2^16 (thorough: 2^12, 2^17), sized for the version 1 and for the version 2 reset response; thorough: two large router key PDUs adjacent / apart) before / between / after the four small items, (ii) n IPv4 origins for every n in 0..=40 and around 128, 204 (4096/20), 256 (thorough: 512, 1024, 4096), n IPv6 origins around 128 (4096/32), (iii) n origins followed by a 1022-provider ASPA and one more origin; each queried with reset v0/v1/v2, serial v1/v2 (retained diff) and reset+serial on one connection, delivered in one piece / with a 1-octet first write / 7-octet writes / the response held back after 4096 octets; response PDU order and octets compared with the model; non-trivial = responses longer than 4096 octets (measured)");
     {
         let small = full_items();
         let big_aspa = |n: usize| Item::Aspa { customer: 70000, providers: (0..n as u32).map(|i| 0x0100_0000 + i).collect() };
@@ -1093,10 +1145,38 @@ fn main() {
             for n in [4095usize, 4096, 4097, 8191, 8192, 8193] { bigs.push((format!("aspa{n}"), big_aspa(n))) }
             for n in [65535usize, 65536, 65537] { bigs.push((format!("key{n}"), big_key(n))) }
         }
+        // (round 11) one PDU whose OWN size is k-1, k, k+1 octets for every power of two k a write path may
+        // switch on (a buffer that is bypassed, flushed or split at k): only a router key PDU can be longer
+        // than 65532 octets. The key info is 32 octets shorter than the PDU.
+        let pdu_powers: &[u32] = if ctx.tier.is_thorough() { &[13, 14, 15, 16, 17, 18, 20] } else { &[13, 14, 15, 16, 17] };
+        for &p in pdu_powers { for d in [-1i64, 0, 1] {
+            let size = ((1i64 << p) + d) as usize;
+            bigs.push((format!("keypdu{size}"), big_key(size - 32)));
+        } }
         for (bn, b) in &bigs { for pos in [0usize, 2, 4] {
             let mut full = small.clone(); full.insert(pos, b.clone());
             configs.push(with_diff(format!("{bn}@{pos}"), full));
         } }
+        // (round 11) the response reaches k-1, k, k+1 octets with the END of the large PDU (cumulative size
+        // rather than the PDU's own: a collecting buffer that is exactly full / one short / one over) and
+        // with its own end (the whole response is k-1, k, k+1 octets), the large PDU first, in the middle or
+        // last among the small ones; the sizes are computed for the reset response of version 1 and of
+        // version 2 (which serves the ASPA item as well), the other queries see the same data a few octets off
+        let fill_powers: &[u32] = if ctx.tier.is_thorough() { &[12, 16, 17] } else { &[16] };
+        for &p in fill_powers { for v in [1u8, 2] { for pos in [0usize, 2, 4] { for d in [-1i64, 0, 1] { for whole in [false, true] {
+            let len_of = |items: &[Item]| items.iter().filter(|i| i.min_version() <= v).map(|i| i.wire(v, true).len()).sum::<usize>();
+            let others = 8 + len_of(&small[..pos]) + if whole { len_of(&small[pos..]) + 24 } else { 0 };
+            let size = ((1i64 << p) + d) as usize - others;
+            let mut full = small.clone(); full.insert(pos, big_key(size - 32));
+            configs.push(with_diff(format!("{}{}{}{}v{v}@{pos}", if whole { "total" } else { "fill" }, 1u64 << p, if d < 0 { "-" } else { "+" }, d.abs()), full));
+        } } } } }
+        // (thorough) two large PDUs in one response, adjacent and apart
+        if ctx.tier.is_thorough() {
+            for (a, b) in [(65537usize, 65537usize), (65537, 4096), (4096, 65537), (131073, 65536)] { for (pa, pb) in [(0usize, 1usize), (0, 5), (2, 3), (4, 5)] {
+                let mut full = small.clone(); full.insert(pa, big_key(a - 32)); full.insert(pb, Item::Key { ski: [0x3C; 20], asn: 70002, info: (0..b - 32).map(|i| (i * 11) as u8).collect() });
+                configs.push(with_diff(format!("keypdu{a}@{pa}+keypdu{b}@{pb}"), full));
+            } }
+        }
         let mut counts: Vec<usize> = (0..=40).collect();
         counts.extend([127, 128, 129, 203, 204, 205, 206, 255, 256, 257]);
         if ctx.tier.is_thorough() { counts.extend([511, 512, 513, 1023, 1024, 1025, 4095, 4096, 4097]) }
@@ -1708,6 +1788,188 @@ fn main() {
         sp.set("streams", serde_json::json!(sis.len()));
         sp.sample_str(|| format!("source=7->8 stream={} sched=B9 d8 | X0 | U | C |", streams[sis[0]].names));
         sp.done(true, &format!("{} streams x source advance at every schedule position and at every octet of a held-back response", sis.len()));
+    }
+
+    //--- (4b) everything else the source reports moves as well -----------------------------
+    let sp = ctx.space("participants.reports",
+        "streams of <= 3 well-formed queries of one version (0, 1, 2); the source is a chain of 2 or 3 states that differ in what it REPORTS besides the payload: timing values (once, twice), data and timing together / one after the other, ready -> not ready, not ready -> ready (then new timing), not ready in between, a new session (restart: other session id, serial 1, no diffs; alone, with and after new timing); every move is an event X placed at every position of the event order: before / after / batched with the octets, at every cut position (quick: for 3-query streams at the query boundaries), with all query boundaries cut and the moves spread over them (a move between the first and the second and another between the second and the third response of ONE connection), and - with the responses held back after k octets for EVERY k up to their length - while a response is partly written; plus one notify event before / between / after the moves at every query boundary (own batches and one batch); oracle: every response is, octet for octet, the model's response for the source as it was at some point between the arrival of the query's last octet and the response's last octet on the wire (payload, session and serial of ONE such state, timing values of ONE such state; an Error Report if the source was not ready at such a point), and a Serial Notify carries the negotiated version and the session and serial of a state between the notify event and its last octet; non-trivial = schedules in which a response other than the connection's first must reflect a move (measured)");
+    {
+        let (t0, t1, t2) = ([REFRESH, RETRY, EXPIRE], [44u32, 55, 66], [77u32, 88, 99]);
+        let r0 = Report::base();
+        let mk = |name: &'static str, f: &dyn Fn(&mut Report)| { let mut r = Report::base(); r.name = name; f(&mut r); r };
+        let restarted = || Data { name: "restarted".into(), serial: 1, full: full_items(), diffs: vec![] };
+        let rt1 = mk("timing1", &|r| r.timing = t1);
+        let rt2 = mk("timing2", &|r| r.timing = t2);
+        let rd = mk("data8", &|r| r.data = Data::next());
+        let rdt1 = mk("data8+timing1", &|r| { r.data = Data::next(); r.timing = t1 });
+        let unready = mk("not-ready", &|r| r.ready = false);
+        let rs = mk("session2", &|r| { r.session = 0x4321; r.data = restarted() });
+        let rst1 = mk("session2+timing1", &|r| { r.session = 0x4321; r.data = restarted(); r.timing = t1 });
+        let _ = t0;
+        let chains: Vec<(&'static str, Vec<Report>)> = vec![
+            ("timing", vec![r0.clone(), rt1.clone()]),
+            ("timing,timing", vec![r0.clone(), rt1.clone(), rt2.clone()]),
+            ("data+timing", vec![r0.clone(), rdt1.clone()]),
+            ("data,timing", vec![r0.clone(), rd.clone(), rdt1.clone()]),
+            ("timing,data", vec![r0.clone(), rt1.clone(), rdt1.clone()]),
+            ("becomes-ready", vec![unready.clone(), r0.clone()]),
+            ("becomes-unready", vec![r0.clone(), unready.clone()]),
+            ("becomes-ready,timing", vec![unready.clone(), r0.clone(), rt1.clone()]),
+            ("unready-in-between", vec![r0.clone(), unready.clone(), rt1.clone()]),
+            ("session", vec![r0.clone(), rs.clone()]),
+            ("session+timing", vec![r0.clone(), rst1.clone()]),
+            ("timing,session", vec![r0.clone(), rt1.clone(), rst1.clone()]),
+        ];
+        let version_of = |q: &Q| match q { Q::Reset(v) | Q::Serial(v, _) => Some(*v), _ => None };
+        let sis: Vec<usize> = (0..streams.len()).filter(|i| {
+            let st = &streams[*i];
+            let v0 = version_of(&st.qs[0]);
+            v0.is_some() && st.qs.iter().all(|q| version_of(q) == v0)
+        }).collect();
+        let thorough = ctx.tier.is_thorough();
+        let x = Ev::User(X_SOURCE_ADVANCES);
+        struct Out { evals: u64, nontrivial: u64, trans: u64, oc: BTreeMap<&'static str, u64>, fails: Vec<(&'static str, String, String)> }
+        let jobs: Vec<(usize, usize)> = sis.iter().flat_map(|si| (0..chains.len()).map(move |ci| (*si, ci))).collect();
+        let outs: Vec<Out> = jobs.par_iter().map(|&(si, ci)| {
+            let mut o = Out { evals: 0, nontrivial: 0, trans: 0, oc: BTreeMap::new(), fails: vec![] };
+            let st = &streams[si];
+            let (cname, reports) = (chains[ci].0, &chains[ci].1);
+            let n = reports.len() - 1;
+            let v = version_of(&st.qs[0]).unwrap();
+            let queries: Vec<Option<(u16, u32)>> = st.qs.iter().map(|q| if let Q::Serial(_, from) = q { Some((SESSION, *from)) } else { None }).collect();
+            let l = st.bytes.len();
+            let rmax: usize = queries.iter().map(|q| reports.iter().map(|r| if r.ready { report_unit(v, *q, r, r.timing).len() } else { 64 }).max().unwrap()).sum();
+            let mut scs: Vec<Vec<Ev>> = Vec::new();
+            // (a) the moves at every position of the event order
+            let inner: Vec<usize> = st.bounds[1..st.bounds.len() - 1].to_vec();
+            let mut cutsets: Vec<Vec<usize>> = vec![vec![]];
+            if thorough || st.npdus <= 2 { for c in 1..l { cutsets.push(vec![c]) } } else { for c in &inner { cutsets.push(vec![*c]) } }
+            if inner.len() >= 2 { cutsets.push(inner.clone()) }
+            let mut tmp: Vec<Vec<Ev>> = Vec::new();
+            for cuts in &cutsets {
+                tmp.clear();
+                schedules(l, cuts, n, false, &mut tmp);
+                for sc in &tmp { scs.push(sc.iter().map(|e| if *e == Ev::Notify { x } else { *e }).collect()) }
+            }
+            // (b) the moves while a response is partly written
+            for k in 0..=rmax {
+                let mut a = vec![Ev::WriteBudget(k), Ev::Deliver(l), Ev::Settle];
+                for _ in 0..n { a.push(x) }
+                a.extend([Ev::Settle, Ev::Unblock, Ev::Settle, Ev::Close, Ev::Settle]); scs.push(a);
+                if n == 2 {
+                    scs.push(vec![x, Ev::Settle, Ev::WriteBudget(k), Ev::Deliver(l), Ev::Settle, x, Ev::Settle, Ev::Unblock, Ev::Settle, Ev::Close, Ev::Settle]);
+                    scs.push(vec![Ev::WriteBudget(k), Ev::Deliver(l), Ev::Settle, x, Ev::Settle, x, Ev::Settle, Ev::Unblock, Ev::Settle, Ev::Close, Ev::Settle]);
+                }
+            }
+            // (c) one notify event before / between / after the moves, at every query boundary
+            for &b in &st.bounds { for m in 0..=n { for batched in [false, true] {
+                let mut a = Vec::new();
+                if b > 0 { a.extend([Ev::Deliver(b), Ev::Settle]) }
+                for i in 0..=n {
+                    if i == m { a.push(Ev::Notify); if !batched { a.push(Ev::Settle) } }
+                    if i < n { a.push(x); if !batched { a.push(Ev::Settle) } }
+                }
+                if batched { a.push(Ev::Settle) }
+                if b < l { a.extend([Ev::Deliver(l - b), Ev::Settle]) }
+                a.extend([Ev::Close, Ev::Settle]); scs.push(a);
+            } } }
+            let src2 = match guard(|| Src::with_reports(reports)) { Ok(s) => s, Err(p) => { o.evals += 1; o.fails.push(("C08.reports.consistent", format!("reports={cname}"), format!("constructing the source panics: {p}"))); return o } };
+            let show = |r: &Report| format!("{}(session {:#x}, serial {}, timing {:?}{})", r.name, r.session, r.data.serial, r.timing, if r.ready { "" } else { ", not ready" });
+            for sc in &scs {
+                let wit = || format!("reports={cname} stream={} hex={} sched={}", st.names, hex(&st.bytes), render_script(sc));
+                if let Some((_, w)) = &ctx.replay { if *w != wit() { continue } }
+                o.evals += 1; o.trans += sc.len() as u64;
+                src2.rewind();
+                let obs = match guard(|| execute(&src2, &st.bytes, sc)) { Ok(x) => x, Err(p) => { o.fails.push(("C08.reports.consistent", wit(), format!("panic: {p}"))); continue } };
+                // where in the schedule the source moved: octets delivered before, octets on the wire at the last quiescence before
+                let xs: Vec<usize> = sc.iter().enumerate().filter(|(_, e)| **e == x).map(|(i, _)| i).collect();
+                let d_before = |at: usize| -> usize { sc[..at].iter().map(|e| if let Ev::Deliver(k) = e { *k } else { 0 }).sum() };
+                let out_before = |at: usize| -> usize { obs.marks.iter().filter(|m| m.at < at).map(|m| m.out_len).last().unwrap_or(0) };
+                let mut reflects_move = false;
+                let verdict = (|| -> Result<&'static str, (&'static str, String)> {
+                    let cons = |d: String| ("C08.reports.consistent", d);
+                    if obs.conn_panicked || obs.livelock || obs.spin || obs.flood { return Err(cons("panic / livelock / spin / flood".into())) }
+                    if !obs.conn_ended { return Err(cons("connection still open after the client closed (hang)".into())) }
+                    let p = parse(&obs.out).map_err(cons)?;
+                    if !p.complaints.is_empty() { return Err(cons(p.complaints.join("; "))) }
+                    if !p.notify_inside.is_empty() { return Err(cons("Serial Notify inside a response".into())) }
+                    if p.units.len() != queries.len() { return Err(cons(format!("{} responses for {} queries", p.units.len(), queries.len()))) }
+                    let mut class = "state:initial";
+                    let (mut mixed, mut unready_seen, mut moved) = (false, false, false);
+                    for (i, &(ty, a, b)) in p.units.iter().enumerate() {
+                        let got = &p.stripped[a..b];
+                        // the states the source was in between the arrival of the query's last octet and the response's last octet
+                        let lo = xs.iter().filter(|at| d_before(**at) < st.bounds[i + 1]).count();
+                        let hi = xs.iter().filter(|at| out_before(**at) < p.unit_raw_end[i]).count();
+                        if lo > hi { return Err(cons(format!("response {} was complete before its query was", i + 1))) }
+                        if i >= 1 && lo >= 1 { reflects_move = true }
+                        let mut fit: Option<(usize, usize)> = None;
+                        // one state for everything first, so that the classes are stable
+                        for j in lo..=hi { if reports[j].ready && got == report_unit(v, queries[i], &reports[j], reports[j].timing).as_slice() { fit = Some((j, j)); break } }
+                        if fit.is_none() { 'search: for j in lo..=hi {
+                            if !reports[j].ready {
+                                // RFC 8210 section 8.4: no data available - an Error Report (the first query settles the version)
+                                let offending = &st.bytes[st.bounds[i]..st.bounds[i + 1]];
+                                if ty == T_ERROR && check_error_unit(got, &[2], if i == 0 { None } else { Some(v) }, offending).is_ok() { fit = Some((j, j)); unready_seen = true; break 'search }
+                                continue
+                            }
+                            for j2 in lo..=hi {
+                                if got == report_unit(v, queries[i], &reports[j], reports[j2].timing).as_slice() { fit = Some((j, j2)); break 'search }
+                            }
+                        } }
+                        match fit {
+                            None => {
+                                let eod = if ty == T_RESPONSE && got.len() >= 24 && got[0] > 0 { let e = &got[got.len() - 16..]; let w = |k: usize| u32::from_be_bytes([e[k], e[k + 1], e[k + 2], e[k + 3]]);
+                                    format!("End of Data: session {:#x}, serial {}, timing [{}, {}, {}]", u16::from_be_bytes([got[got.len() - 22], got[got.len() - 21]]), w(0), w(4), w(8), w(12)) }
+                                    else if ty == T_RESPONSE && got.len() >= 12 { format!("End of Data: serial {}", u32::from_be_bytes([got[got.len() - 4], got[got.len() - 3], got[got.len() - 2], got[got.len() - 1]])) }
+                                    else { format!("type {ty}") };
+                                return Err(cons(format!("response {} is not the model's response for the source as it was at any point during that query (states {}): PDU order (type:length) [{}], {eod}; the model's: {}", i + 1,
+                                    (lo..=hi).map(|j| show(&reports[j])).collect::<Vec<_>>().join(" / "), pdu_order(got),
+                                    (lo..=hi).map(|j| if reports[j].ready { format!("[{}]", pdu_order(&report_unit(v, queries[i], &reports[j], reports[j].timing))) } else { "an Error Report".into() }).collect::<Vec<_>>().join(" / "))))
+                            }
+                            Some((j, j2)) => { if j != j2 { mixed = true } if j >= 1 || j2 >= 1 { moved = true } }
+                        }
+                    }
+                    if moved { class = "state:after-a-move" }
+                    if unready_seen { class = "error:source-not-ready" }
+                    if mixed { class = "mixed:data-of-one-state,timing-of-another(both-during-the-query)" }
+                    // the Serial Notify PDUs
+                    let fired = sc.iter().filter(|e| matches!(e, Ev::Notify)).count();
+                    let nt = |d: String| ("C08.reports.notify_state", d);
+                    if p.notifies > fired { return Err(nt(format!("{} Serial Notify PDUs for {fired} notify events", p.notifies))) }
+                    if !p.notify_bad.is_empty() { return Err(nt(p.notify_bad.join("; "))) }
+                    if let Some(ni) = sc.iter().position(|e| matches!(e, Ev::Notify)) {
+                        for pdu in split(&obs.out).map_err(cons)?.iter().filter(|q| q.ty == T_NOTIFY) {
+                            let got = &obs.out[pdu.start..pdu.end];
+                            let lo = xs.iter().filter(|at| **at < ni).count();
+                            let hi = xs.iter().filter(|at| out_before(**at) < pdu.end).count();
+                            if lo > hi { return Err(nt("Serial Notify on the wire before the notify event".into())) }
+                            // what a source that is not ready announces is not judged
+                            if (lo..=hi).any(|j| !reports[j].ready) { continue }
+                            if d_before(ni) > 0 && got[0] != v { return Err(nt(format!("Serial Notify {} carries version {} on a connection that settled on version {v}", hex(got), got[0]))) }
+                            if got[0] > MODEL_MAX_VERSION { return Err(nt(format!("Serial Notify {} carries the unsupported version {}", hex(got), got[0]))) }
+                            let (gs, gn) = (u16::from_be_bytes([got[2], got[3]]), u32::from_be_bytes([got[8], got[9], got[10], got[11]]));
+                            if !(lo..=hi).any(|j| reports[j].session == gs && reports[j].data.serial == gn) {
+                                return Err(nt(format!("Serial Notify {} announces session {gs:#x} serial {gn}, which is not what the source reported at any point between the notify event and the PDU (states {})", hex(got), (lo..=hi).map(|j| show(&reports[j])).collect::<Vec<_>>().join(" / "))))
+                            }
+                            if class == "state:initial" || class == "state:after-a-move" { class = if lo >= 1 { "serial-notify:after-a-move" } else { "serial-notify:initial-state" } }
+                        }
+                    }
+                    Ok(class)
+                })();
+                if reflects_move { o.nontrivial += 1 }
+                match verdict { Ok(c) => *o.oc.entry(c).or_insert(0) += 1, Err((oracle, d)) => { o.fails.push((oracle, wit(), d)); *o.oc.entry("violation").or_insert(0) += 1 } }
+            }
+            o
+        }).collect();
+        for o in outs {
+            sp.evals(o.evals); sp.nontrivial(o.nontrivial); sp.merge_outcomes(&o.oc); sp.states(o.evals); sp.traces(o.evals); sp.transitions(o.trans);
+            for (oracle, w, d) in o.fails { ctx.fail(oracle, w, d) }
+        }
+        sp.set("streams", serde_json::json!(sis.len()));
+        sp.set("chains", serde_json::json!(chains.iter().map(|(n, rs)| format!("{n}: {}", rs.iter().map(|r| format!("{}(session {:#x}, serial {}, timing {:?}, ready {})", r.name, r.session, r.data.serial, r.timing, r.ready)).collect::<Vec<_>>().join(" -> "))).collect::<Vec<_>>()));
+        sp.sample_str(|| format!("reports=timing stream={} sched=d8 | X0 | d12 | C |", streams[sis[sis.len() / 2]].names));
+        sp.done(true, &format!("{} streams x {} chains of source states x every position of the moves (every cut{}; every octet of the held-back responses; a notify at every query boundary)", sis.len(), chains.len(), if thorough { "" } else { " on streams of <= 2 queries, the query boundaries on streams of 3" }));
     }
 
     //--- (5) history: the same connection after other connections on the same thread ---
